@@ -428,6 +428,40 @@ func enumerateCNF(tier string, seed int64, certOnly bool, yield func(string, cor
 			}
 		}
 	}
+	// PC: permuted cascades. Horn-like chains with fan-in (a; a->b; a->c; b&c->d; ...) whose refutation or forced model
+	// needs a cascade of unit propagations; EVERY order of the clause list (6 to 8 clauses: 720 to 40320 orders), the
+	// fact written as a unit clause and as a clause repeating its literal (the slice front end collects true unit
+	// clauses before it simplifies). The parse-time simplifier moves clauses around while it scans the list, so what
+	// it does depends on the order.
+	{
+		bases := [][][]int{
+			{{1}, {-1, 2}, {-1, 3}, {-2, -3, 4}, {-4, 5}, {-4, -5}},                   // unsatisfiable
+			{{1}, {-1, 2}, {-1, 3}, {-2, -3, 4}, {-4, 5}, {-5, 6, 3}},                 // one forced prefix, free tail
+			{{1}, {-1, 2}, {-1, 3}, {-2, -3, 4}, {-4, 5}, {-4, 6}, {-5, -6, 7}, {-7}}, // unsatisfiable, two fan-ins
+		}
+		if thorough {
+			bases = append(bases, [][]int{{-1}, {1, 2}, {1, 3}, {-2, -3, -4}, {4, 5}, {4, 6}, {-5, -6, 7}, {-7, 2}})
+		}
+		pc := []cfg{{"dimacs", 0, 0, 0}, {"slice", 0, 0, 0}}
+		for _, base := range bases {
+			n := maxVarCNF(base)
+			for dup := 0; dup < 2; dup++ {
+				f := copyCNF(base)
+				if dup == 1 {
+					f[0] = []int{f[0][0], f[0][0]}
+				}
+				if !permutations(len(f), func(perm []int) bool {
+					g := make([][]int, len(f))
+					for i, k := range perm {
+						g[i] = f[k]
+					}
+					return emit("PC", g, n, pc[dup:dup+1])
+				}) {
+					return
+				}
+			}
+		}
+	}
 	s4max := 3
 	if thorough {
 		s4max = 5
@@ -493,7 +527,7 @@ type c01 struct{}
 func (c01) ID() string    { return "C01" }
 func (c01) Level() string { return "exploration" }
 func (c01) Rule() string {
-	return "cases = every CNF of the families T2 (n=2, all literal sequences of length 0..3 as clauses, all clause sequences), D3 (one dirty clause over 3 variables with units before/after), LL (every pair of literal sequences of length 5 over 2 variables as clauses, with no or one unit after), B3 (every ORDERED sequence of 4 or 5 unit/binary clauses over 3 variables), S3, S4, L6 (watch movement), M (conflict-rich seeds and all one-edit neighbours), R (seeded catalogue of random 2/3-CNFs over 6..10 variables with all one-edit neighbours), R3 (seeded threshold 3-CNFs over 10..14 variables) x entry point (ParseSlice, ParseSliceNb with n and n+1 declared, ParseCNF) x learned-clause limit (default, reduce at 1 or 2 stored clauses, or tight: the limit always equals the number of stored clauses); each case is executed once per heuristic choice list (decision variable/polarity, restart now, reduce now) up to the case's deviation bound; every execution is judged against the truth table of the input as written. A case is non-trivial when some execution made a decision or met a conflict, or parse-time simplification decided it with at least one unit or duplicate/tautology removal (clauses present)."
+	return "cases = every CNF of the families T2 (n=2, all literal sequences of length 0..3 as clauses, all clause sequences), D3 (one dirty clause over 3 variables with units before/after), LL (every pair of literal sequences of length 5 over 2 variables as clauses, with no or one unit after), B3 (every ORDERED sequence of 4 or 5 unit/binary clauses over 3 variables), PC (every order of the clause list of Horn-like cascades of 6..8 clauses), S3, S4, L6 (watch movement), M (conflict-rich seeds and all one-edit neighbours), R (seeded catalogue of random 2/3-CNFs over 6..10 variables with all one-edit neighbours), R3 (seeded threshold 3-CNFs over 10..14 variables) x entry point (ParseSlice, ParseSliceNb with n and n+1 declared, ParseCNF) x learned-clause limit (default, reduce at 1 or 2 stored clauses, or tight: the limit always equals the number of stored clauses); each case is executed once per heuristic choice list (decision variable/polarity, restart now, reduce now) up to the case's deviation bound; every execution is judged against the truth table of the input as written. A case is non-trivial when some execution made a decision or met a conflict, or parse-time simplification decided it with at least one unit or duplicate/tautology removal (clauses present)."
 }
 func (c01) Assumptions() []string {
 	return []string{
